@@ -141,6 +141,15 @@ def rule_M3(F, R):
             R.violation("M3", b["path"], "no-update", "%s takes &mut Operations but never reaches TaskData::update" % b["name"], where(b))
 
 
+def _task_flag_field(F):
+    """the per-object `already refreshed modified` flag: the only bool field of Task"""
+    adt = F.adts.get(TASK)
+    if not adt:
+        return "updated_modified"
+    bools = [f["name"] for f in adt["variants"][0]["fields"] if f["ty"] == "bool"]
+    return bools[0] if len(bools) == 1 else "updated_modified"
+
+
 def rule_M4(F, R):
     R.begin("M4", "`modified` refresh table of set_value: `modified` is written iff the property is not \"modified\" and the per-object flag is unset; the flag is set on every path; then the property itself is updated through TaskData::update")
     b = None
@@ -158,7 +167,8 @@ def rule_M4(F, R):
         conds = {a: o for (a, o, _bb) in p.atoms}
         notmod = [o for a, o in conds.items() if a[0] == "call" and re.search(r"PartialEq::(ne|eq)$", a[1]) and _has(a[2], lambda v: v == ("K", '"modified"'))]
         isne = [a[1].endswith("::ne") for a, o in conds.items() if a[0] == "call" and re.search(r"PartialEq::(ne|eq)$", a[1]) and _has(a[2], lambda v: v == ("K", '"modified"'))]
-        flag = [o for a, o in conds.items() if a[0] == "val" and _has(a[1], lambda v: v[0] == "F" and v[3] == "updated_modified")]
+        flagname = _task_flag_field(F)
+        flag = [o for a, o in conds.items() if a[0] == "val" and _has(a[1], lambda v: v[0] == "F" and v[3] == flagname)]
         ups = [e for e in p.events if e["callee"].endswith("TaskData::update")]
         mod_up = [e for e in ups if _has(e["args"][1], lambda v: v[0] == "A" and v[2] == "Modified") or e["args"][1] == ("K", '"modified"')]
         main_up = [e for e in ups if e["args"][1] == ("P", "property") and e["args"][2] == ("P", "value")]
@@ -231,8 +241,10 @@ def rule_M5(F, R):
 
 def rule_M6(F, R):
     R.begin("M6", "guards: UDA setters/removers reject keys of the data model; tag add/remove reject synthetic tags - the rejection dominates the write")
+    import roles
+    ikk = roles.task_fn(F, "is_known_key")
     checks = [("add_tag", r"Tag::is_synthetic$", True), ("remove_tag", r"Tag::is_synthetic$", True),
-              ("set_user_defined_attribute", r"Task::is_known_key$", True), ("remove_user_defined_attribute", r"Task::is_known_key$", True)]
+              ("set_user_defined_attribute", "^" + re.escape(ikk or "task::task::Task::is_known_key") + "$", True), ("remove_user_defined_attribute", "^" + re.escape(ikk or "task::task::Task::is_known_key") + "$", True)]
     for name, guard, reject_when in checks:
         b = None
         for p, bb in F.bodies.items():
@@ -270,7 +282,7 @@ def rule_M6(F, R):
         if not bs:
             continue
         cone = F.reachable_from([bs[0]["path"]])
-        if any(re.match(r"^task::task::Task::%s(::<.*>)?$" % tgt, q) for q in cone) or any(q.endswith("Task::is_known_key") for q in cone):
+        if any(re.match(r"^task::task::Task::%s(::<.*>)?$" % tgt, q) for q in cone) or (ikk in cone):
             R.ok("M6", "%s goes through the guarded setter" % name, where(bs[0]))
         else:
             R.violation("M6", bs[0]["path"], "unguarded-alias", "%s bypasses the reserved-key guard" % name, where(bs[0]))
@@ -322,7 +334,8 @@ def rule_M7(F, R):
                 R.ok("M7", "%s uses %s" % (name, pref), where(bs[0]))
             else:
                 R.violation("M7", bs[0]["path"], "prefix", "%s uses key prefix(es) %s; the task model says %s (written and read keys would not meet)" % (name, sorted(got), pref), where(bs[0]))
-    ik = F.bodies.get(TASK + "::is_known_key")
+    import roles
+    ik = F.bodies.get(roles.task_fn(F, "is_known_key") or "")
     if ik is None:
         R.missing("M7", "Task::is_known_key")
     else:
@@ -354,7 +367,8 @@ def rule_M7(F, R):
 
 def rule_M8(F, R):
     R.begin("M8", "derived views: has_synthetic_tag maps each SyntheticTag to the matching predicate; the dependency map adds an edge only for a dep_<uuid> key of a working-set task whose target is pending")
-    b, paths = _paths(F, R, "M8", TASK + "::has_synthetic_tag")
+    import roles
+    b, paths = _paths(F, R, "M8", roles.task_fn(F, "has_synthetic_tag") or (TASK + "::has_synthetic_tag"))
     want = {
         "Waiting": ("is_waiting", False), "Active": ("is_active", False), "Blocked": ("is_blocked", False), "Unblocked": ("is_blocked", True),
         "Blocking": ("is_blocking", False), "Pending": ("Status::Pending", False), "Completed": ("Status::Completed", False), "Deleted": ("Status::Deleted", False),
@@ -386,7 +400,7 @@ def rule_M8(F, R):
     if adt:
         for v in adt["variants"]:
             if v["name"] not in seen:
-                R.violation("M8", TASK + "::has_synthetic_tag", "synthetic-missing:%s" % v["name"], "no mapping for synthetic tag %s" % v["name"], where(b) if b else None)
+                R.violation("M8", (b or {}).get("path", TASK + "::has_synthetic_tag"), "synthetic-missing:%s" % v["name"], "no mapping for synthetic tag %s" % v["name"], where(b) if b else None)
     # dependency map: add_dependency guarded by pending status
     dm = F.real_body("replica::Replica::<S>::dependency_map")
     if dm is None:
@@ -497,6 +511,18 @@ def rule_E(F, R):
             continue
         closures.append(cp)
         todo += list(F.closures_in.get(cp, ()))
+    # name(s) of the local holding `now - days(180)` in the parent (captured by the closures)
+    thr_names = set()
+    for (i, t) in sub:
+        nm = b["locals"][t["dest"]["l"]].get("name")
+        if nm:
+            thr_names.add(nm)
+        for bl in c.blocks:
+            for st in bl["s"]:
+                if st["k"] == "assign" and st["r"]["k"] == "use" and (st["r"]["o"].get("m") or st["r"]["o"].get("c") or {}).get("l") == t["dest"]["l"]:
+                    n2 = b["locals"][st["l"]["l"]].get("name")
+                    if n2:
+                        thr_names.add(n2)
     cmp_ok = None
     status_ok = False
     parse_ok = False
@@ -512,8 +538,8 @@ def rule_E(F, R):
                 nm = e["callee"]
                 if re.search(r"PartialOrd::(lt|le|gt|ge)$", nm):
                     a0, a1 = e["args"]
-                    thr0 = _has(a0, lambda z: z[0] == "P" and "ago" in str(z[1]) or z == ("P", "six_mos_ago"))
-                    thr1 = _has(a1, lambda z: z[0] == "P" and "ago" in str(z[1]) or z == ("P", "six_mos_ago"))
+                    thr0 = _has(a0, lambda z: z[0] == "P" and z[1] in thr_names)
+                    thr1 = _has(a1, lambda z: z[0] == "P" and z[1] in thr_names)
                     rel = nm.split("::")[-1]
                     if thr1 and not thr0:
                         cmp_ok = (rel == "lt", "date %s threshold" % rel)
